@@ -9,7 +9,9 @@ THEOREMS = [("FlatModel.Props.C01", "FC.C02.frame_history"), ("FlatModel.Props.C
             ("FlatModel.Props.C05", "FC.C05.push_keeps_prefix"), ("FlatModel.Props.C05", "FC.C05.indexOptimized_spill_keeps_prefix"),
             ("FlatModel.Props.C05", "FC.C05.indexList_chonk_keeps_smol"), ("FlatModel.Props.C06Bits", "FC.Huff.frame_bits"),
             ("FlatModel.Props.C06Bits", "FC.C06.frame_coded"), ("FlatModel.Props.C11", "FC.C11.hit_or_miss")]
-LEAN_TARGETS = ["FlatModel.Generated.Covered"]
+THEOREMS += [("FlatModel.Props.Universe", t) for t in ("FC.Universe.C02_every_composition", "FC.Universe.C02_issued_valid")]
+THEOREMS += [("FlatModel.Props.UniverseOps", "FC.Universe.C02_reserve_every_composition")]
+LEAN_TARGETS = ["FlatModel.Generated.Covered", "FlatModel.Generated.CoveredUniverse"]
 PROFILES = {"quick": ["checked"], "thorough": ["checked", "wrapping"], "search": ["checked"]}
 RULE = ("histories mixing push (any form), reserve_items, reserve_regions and FlatStack::reserve on every catalogue entry and "
         "FlatStack; after every step all issued ordinals are re-read; non-trivial when an earlier ordinal is re-read after "
